@@ -12,7 +12,8 @@ root = f'/verif/.work/vmsm/mrepo_{label}'
 os.makedirs('/verif/.work/vmsm/mut', exist_ok=True)
 files = ['curve25519-dalek/src/edwards.rs', 'curve25519-dalek/src/window.rs', 'curve25519-dalek/src/scalar.rs', 'curve25519-dalek/src/traits.rs',
          'curve25519-dalek/src/backend/mod.rs', 'curve25519-dalek/src/backend/vector/avx2/edwards.rs',
-         'curve25519-dalek/src/backend/serial/scalar_mul/precomputed_straus.rs',
+         'curve25519-dalek/src/backend/serial/scalar_mul/precomputed_straus.rs', 'curve25519-dalek/src/backend/serial/scalar_mul/straus.rs',
+         'curve25519-dalek/src/backend/serial/scalar_mul/pippenger.rs', 'curve25519-dalek/src/backend/serial/curve_models/mod.rs',
          'curve25519-dalek/src/backend/vector/scalar_mul/straus.rs', 'curve25519-dalek/src/backend/vector/scalar_mul/pippenger.rs',
          'curve25519-dalek/src/backend/vector/scalar_mul/precomputed_straus.rs']
 for f in files:
